@@ -278,3 +278,34 @@ class Flyer(Base):
         self._log("collect")
         for i in range(self.nevents):
             yield {"time": float(i), "data": {self.name + "_x": i}, "timestamps": {self.name + "_x": float(i)}}
+
+
+class Sig:
+    """minimal ophyd-like signal for suspenders: subscribe(cb, event_type=None, run=True), clear_sub, get, put"""
+
+    def __init__(self, name, rec, value=0, **kw):
+        self.name = name
+        self.rec = rec
+        self.value = value
+        self.subs = []
+        self.parent = None
+
+    def __repr__(self):
+        return self.name
+
+    def subscribe(self, cb, event_type=None, run=True):
+        self.subs.append(cb)
+        if run:
+            cb(value=self.value, old_value=self.value, obj=self)
+
+    def clear_sub(self, cb):
+        if cb in self.subs:
+            self.subs.remove(cb)
+
+    def get(self):
+        return self.value
+
+    def put(self, v):
+        old, self.value = self.value, v
+        for cb in list(self.subs):
+            cb(value=v, old_value=old, obj=self)
